@@ -1382,7 +1382,12 @@ func (b *Body) matchPairing(l *Ledger) {
 	fns := map[*ssa.Function]bool{mv: true}
 	for _, g := range b.libCalleesOf(mv) {
 		if g != mv && g.Signature.Results().Len() == 1 && typeShort(g.Signature.Results().At(0).Type()) == "bool" && len(g.Params) == 2 {
-			fns[g] = true // matchesArray
+			// matchesArray: a comparer of containers, recognisable by calling back into matchesValue
+			for _, h := range b.libCalleesOf(g) {
+				if h == mv {
+					fns[g] = true
+				}
+			}
 		}
 	}
 	sideOf := func(v ssa.Value) int {
@@ -1548,6 +1553,33 @@ func (b *Body) matchPairing(l *Ledger) {
 			} else {
 				l.add("R-CMPSHAPE", b.Name, key, b.posOf(call), Discharged, form+" pairing; size compared; false is final", true)
 			}
+		}
+		// no other comparer: the two operands never meet in a function of the library other than
+		// these comparers themselves (a tolerance, a normalising comparison, ... would make
+		// different values "equal" and drop the member from the patch)
+		nf := 0
+		allInstrs(fn, func(i ssa.Instruction) {
+			call, ok := i.(*ssa.Call)
+			if !ok {
+				return
+			}
+			g := call.Call.StaticCallee()
+			if g == nil || fns[g] || g.Pkg != b.Lib || len(call.Call.Args) < 2 {
+				return
+			}
+			sides := map[int]bool{}
+			for _, a := range call.Call.Args {
+				if sd := sideOf(a); sd >= 0 {
+					sides[sd] = true
+				}
+			}
+			if len(sides) >= 2 {
+				nf++
+				l.add("R-CMPSHAPE", b.Name, fmt.Sprintf("%s: values are compared by == or by the comparers themselves (foreign comparer #%d)", b.canonFname(fn), nf), b.posOf(call), Violated, "the two operands are handed to "+fname(g)+": a comparison other than == on the asserted values (a tolerance, a normalisation) can call different values equal, and the changed member then never reaches the patch", true)
+			}
+		})
+		if nf == 0 {
+			l.add("R-CMPSHAPE", b.Name, fmt.Sprintf("%s: values are compared by == or by the comparers themselves", b.canonFname(fn)), b.rel(fn.Pos()), Discharged, "no other function of the library receives both operands", true)
 		}
 		// scalar arms: == between the two operands asserted to the same type
 		m := 0
